@@ -31,6 +31,8 @@ KINDS = {
     "T": (["taxa"], "float64"), "V": (["vrnt"], "float64"), "R": (["trait"], "float64"),
     "TV": (["taxa", "vrnt"], "int8"), "PTV": (["taxa", "vrnt"], "int8"), "TR": (["taxa", "trait"], "float64"),
     "SQ": (["taxa"], "float64"), "SQR": (["taxa", "trait"], "float64"),
+    # three and four square taxa axes followed by a trait axis (three- / four-way variance matrices)
+    "SQ3R": (["taxa", "trait"], "float64"), "SQ4R": (["taxa", "trait"], "float64"),
 }
 CLASSES = {
     "DenseTaxaMatrix": ("pybrops.core.mat.DenseTaxaMatrix", "T"),
@@ -48,10 +50,17 @@ CLASSES = {
     "DenseTwoWayDHAdditiveGeneticVarianceMatrix": ("pybrops.model.vmat.DenseTwoWayDHAdditiveGeneticVarianceMatrix", "SQR"),
     "DenseTwoWayDHAdditiveGenicVarianceMatrix": ("pybrops.model.vmat.DenseTwoWayDHAdditiveGenicVarianceMatrix", "SQR"),
 }
+# classes with more than two square taxa axes: exercised by a dedicated batch of in-place reorderings (driver c03), not by the
+# general histories (their copying taxa operations fall under the open findings about square matrices)
+CLASSES_MULTISQUARE = {
+    "DenseThreeWayDHAdditiveGeneticVarianceMatrix": ("pybrops.model.vmat.DenseThreeWayDHAdditiveGeneticVarianceMatrix", "SQ3R"),
+    "DenseThreeWayDHAdditiveGenicVarianceMatrix": ("pybrops.model.vmat.DenseThreeWayDHAdditiveGenicVarianceMatrix", "SQ3R"),
+    "DenseFourWayDHAdditiveGeneticVarianceMatrix": ("pybrops.model.vmat.DenseFourWayDHAdditiveGeneticVarianceMatrix", "SQ4R"),
+}
 
 
 def get_class(name):
-    mod, kind = CLASSES[name]
+    mod, kind = CLASSES[name] if name in CLASSES else CLASSES_MULTISQUARE[name]
     return getattr(importlib.import_module(mod), name), kind
 
 
@@ -75,6 +84,16 @@ def cells(kind, ax):
         m = np.array([[i * 8 + j for j in t] for i in t], dtype=dt).reshape(len(t), len(t))
     elif kind == "SQR":
         m = np.array([[[i * 64 + j * 8 + k for k in r] for j in t] for i in t], dtype=dt).reshape(len(t), len(t), len(r))
+    elif kind in ("SQ3R", "SQ4R"):
+        na = 3 if kind == "SQ3R" else 4
+        import itertools
+        m = np.zeros((len(t),) * na + (len(r),), dtype=dt)
+        for pos in itertools.product(range(len(t)), repeat=na):
+            code = 0
+            for q in pos:
+                code = code * 8 + t[q]
+            for kk, rr in enumerate(r):
+                m[pos + (kk,)] = code * 8 + rr
     else:
         raise KeyError(kind)
     return m
@@ -121,6 +140,16 @@ def decode(kind, mat):
             if sq:
                 exp = cells(kind, ax)
                 ok = bool(np.all((m == exp) | np.isnan(m))) and all((int(m[i, i, 0]) // 8) % 8 == ax["taxa"][i] for i in range(m.shape[0]))
+        elif kind in ("SQ3R", "SQ4R"):
+            na = 3 if kind == "SQ3R" else 4
+            if len(set(m.shape[:na])) != 1:
+                sq = False
+            n = m.shape[0]
+            ax["trait"] = [int(x) % 8 for x in m[(0,) * na]]
+            # ids from the main diagonal cell (i,i,..,i): every digit of its code is the id of taxon i
+            ax["taxa"] = [int(m[(i,) * na + (0,)]) // 8 % 8 for i in range(n)] if sq else []
+            if sq:
+                ok = bool(np.array_equal(m, cells(kind, ax)))
     except Exception:
         ok = False
     return ax, bool(ok), bool(sq)
